@@ -137,7 +137,7 @@ class Execution:
 
 
 def run_processes(flmod, programs, prefix=(), expect=None, kill=None, horizon=50.0, max_steps=5000,
-                  inherited=None):
+                  inherited=None, on_report=None):
     """programs: list of (name, callable(env, api)) run in forked children. kill = (slot, report_index) or None.
     `api` gives the child scenario the harness hooks: api.enter(), api.exit(), api.result(ok).
     Returns Execution."""
@@ -269,6 +269,10 @@ def run_processes(flmod, programs, prefix=(), expect=None, kill=None, horizon=50
             kind, iarg, farg = _read_report(c, x, vnow)
             c.last = kind
             x.points += 1
+            if on_report is not None:
+                r = on_report(kids, c, kind, iarg)
+                if r is not None:
+                    x.log.append((vnow, c.slot, 'HOOK', r))
             # `progress` counts events that can free the lock: the step after an unlock report (the unlock
             # itself runs between that report and the next one) and process exits. Only those re-enable a
             # process parked in a blocking flock, otherwise two parked processes would wake each other forever.
